@@ -102,6 +102,7 @@ def run(ctx, rep):
     check_commit(fx, rep)
     check_cache_account(fx, rep)
     check_reads(fx, rep)
+    check_has_storage_answers(fx, rep)
     rep.assume('the EVM only creates accounts whose storage is empty (C21) and only empties accounts it has changed first')
 
 
@@ -674,6 +675,89 @@ def check_reads(fx, rep):
         rep.ok('R4-reads', 'load_cache_account:classification', 'None / empty / non-empty -> not existing / empty / loaded')
     else:
         rep.violation('R4-reads', 'load_cache_account:classification', 'load_cache_account builds %s; expected not-existing for None, loaded_empty_eip161 iff is_empty(), loaded otherwise' % {k_: sorted(map(str, v)) for k_, v in seen.items()}, lca.where())
+
+
+def closure_polarity(fx, c):
+    """'nonzero' when the closure answers !value.is_zero(), 'zero' when it answers value.is_zero()"""
+    try:
+        rs = Symx(fx, max_paths=50).run(c)
+    except Budget:
+        return None
+    pol = set()
+    for r in rs:
+        v = r.ret
+        neg = False
+        while isinstance(v, tuple) and v[0] == 'un' and v[1] == 'Not':
+            neg = not neg
+            v = v[2]
+        if not (isinstance(v, tuple) and v[0] == 'call' and v[1].endswith('::is_zero')):
+            return None
+        pol.add('nonzero' if neg else 'zero')
+    return pol.pop() if len(pol) == 1 else None
+
+
+def check_has_storage_answers(fx, rep):
+    """R4b: the answers has_storage itself gives.  `true` only on evidence of a non-zero cached slot
+    (State::storage and CacheDB::storage cache zero-valued slots they fetched, so a non-empty map is
+    not evidence); `false` only when no cached slot is non-zero and the status says storage is known."""
+    targets = []
+    for g in fx.fns_all:
+        s = g.impl_self or ''
+        if g.name == 'has_storage' and s.startswith('revm::db::states::state::State') and (g.impl_trait or '').endswith('::Database'):
+            targets.append(('State::has_storage', g))
+        if g.name == 'has_storage_ref' and s.startswith('revm::db::in_memory_db::CacheDB') and (g.impl_trait or '').endswith('::DatabaseRef'):
+            targets.append(('CacheDB::has_storage_ref', g))
+    if len(targets) != 2:
+        rep.undecided('R4b-has-storage', 'anchors', 'State::has_storage / CacheDB::has_storage_ref not both found')
+        return
+    for label, g in targets:
+        rep.fn(g)
+        pol = {}
+        for c in fx.closures_of(g.nq):
+            pol[c.nq.split('::')[-1]] = closure_polarity(fx, c)
+        try:
+            rs = Symx(fx, max_paths=500).run(g)
+        except Budget:
+            rep.undecided('R4b-has-storage', label, 'path budget', g.where())
+            continue
+        n_true = 0
+        bad = []
+        for r in rs:
+            txt = render(r.ret)
+            if not txt.startswith('Result::Ok{0: '):
+                continue
+            ans = txt[len('Result::Ok{0: '):].rstrip('}')
+            if ans not in ('0', '1'):
+                continue
+            nonzero_seen = None      # truth of "some cached slot is non-zero" on this path
+            via_values = False
+            for (sv, lit, _f, _b) in r.lits:
+                s = render(sv)
+                for meth in ('any', 'all'):
+                    if s.startswith(meth + '('):
+                        cl = [p for name, p in pol.items() if name + '(' in s]
+                        if not cl or cl[0] is None:
+                            continue
+                        t = lit_truth(lit)
+                        if meth == 'any' and cl[0] == 'nonzero':
+                            nonzero_seen = t
+                        elif meth == 'all' and cl[0] == 'zero':
+                            nonzero_seen = (not t) if t is not None else None
+                        elif meth == 'any' and cl[0] == 'zero' or meth == 'all' and cl[0] == 'nonzero':
+                            pass
+            if ans == '1':
+                n_true += 1
+                if nonzero_seen is not True:
+                    bad.append('answers true on a path with no evidence that a cached slot is non-zero [%s]' % '; '.join('%s %s' % (render(l[0])[:50], l[1]) for l in r.lits[-2:]))
+            else:
+                if nonzero_seen is True:
+                    bad.append('answers false although a cached slot is non-zero')
+        if n_true == 0:
+            bad.append('never answers true from the cached storage: a cached non-zero slot of an account the database does not know would be missed')
+        if bad:
+            rep.violation('R4b-has-storage', label, '%s %s' % (label, bad[0]), g.where())
+        else:
+            rep.ok('R4b-has-storage', label, 'true only when any cached slot value is non-zero; false only otherwise')
 
 
 def known_guard(parent, g, bi, fx):
